@@ -153,6 +153,11 @@ class Case:
                 if pos == len(steps):
                     break
                 ri = steps[pos]
+                if sp["resubmit"] == "overlap" and ri not in submitted:
+                    self.submit_overlapping(ri, by_e2e, seen)
+                    submitted.add(ri)
+                    self.submit_and_judge(ri, by_e2e, seen, first=False)
+                    continue
                 self.submit_and_judge(ri, by_e2e, seen, first=ri not in submitted)
                 submitted.add(ri)
                 if sp["resubmit"]:
@@ -213,6 +218,57 @@ class Case:
                 self.witness(mech("answer.no_error_although_not_routable"), ctx)
             elif type(exc).__name__ != "NotRoutable":
                 self.witness("answer.wrong_exception_type", ctx)
+
+    def submit_overlapping(self, ri, by_e2e, seen):
+        """Two threads submit the answer for one request at the same moment; handing the message to the connection
+        is slowed down (a delay only), so that the second submission is routed before the first one has been
+        handed over.  Exactly one may be accepted and transmitted."""
+        import time
+        h, node = self.h, self.w.node
+        hbh, e2e = self.req_ids[ri]
+        m = by_e2e[e2e]
+        S = self.req_sock[ri]
+        ready = self.sock_ready(S)
+        orig = node.send_message
+
+        def slow(conn, message):
+            time.sleep(0.02)
+            return orig(conn, message)
+
+        node.send_message = slow
+        res = {}
+
+        def sub(k):
+            res[k] = self.app.submit(m)
+
+        ths = [threading.Thread(target=sub, args=(k,)) for k in (0, 1)]
+        try:
+            for t in ths:
+                t.start()
+            for t in ths:
+                t.join(10)
+        finally:
+            del node.send_message
+        h.settle()
+        self.judged += 1
+        self.run.cov["overlapping_submissions"] = self.run.cov.get("overlapping_submissions", 0) + 1
+        where = []
+        for q in self.all_peers():
+            q.drain()
+            new = q.frames[seen.get(id(q), 0):]
+            seen[id(q)] = len(q.frames)
+            where += [(q, f) for f in new if not f.is_request and f.h.code == 272]
+        accepted = [k for k in (0, 1) if res.get(k) is None]
+        ctx = {"request": ri, "ids": (hbh, e2e), "accepted": len(accepted), "sent_on": [q.pid for q, _ in where],
+               "expected_sock": S.pid, "sock_ready": ready, "overlapping": True}
+        if any(q is not S for q, _ in where):
+            self.witness("answer.sent_on_wrong_connection", ctx)
+        elif len(where) > 1 or len(accepted) > 1:
+            self.witness("answer.second_submission_transmitted.overlapping", ctx)
+        elif ready and (len(where) != 1 or len(accepted) != 1):
+            self.witness("answer.not_transmitted_on_ready_requesting_connection", ctx)
+        elif not ready and (where or accepted):
+            self.witness("answer.transmitted_although_connection_not_ready", ctx)
 
     def concurrent_submit(self, by_e2e):
         """All submissions at once from separate threads, I/O loop free-running."""
@@ -351,7 +407,8 @@ def run_shard(spec):
                                         continue
                                     if fault != "none" and nreq >= 3 and (i // spec["parts"]) % 3:
                                         continue   # sample the largest grids
-                                    run.one(npeers, pl, order, fault, pos, tgt, resubmit=(i // spec["parts"]) % 4 == 0)
+                                    run.one(npeers, pl, order, fault, pos, tgt,
+                                            resubmit={0: True, 1: "overlap"}.get((i // spec["parts"]) % 4, False))
     elif spec["kind"] == "random":
         for _ in range(spec["n"]):
             npeers = rng.choice([1, 2, 3])
@@ -368,7 +425,7 @@ def run_shard(spec):
             order = list(range(nreq))
             rng.shuffle(order)
             run.one(npeers, pl, order, rng.choice(FAULTS), rng.randrange(nreq + 1), rng.randrange(npeers),
-                    resubmit=rng.random() < 0.3)
+                    resubmit=rng.choice([False, False, False, False, True, True, "overlap"]))
     else:
         for _ in range(spec["n"]):
             npeers = rng.choice([2, 3])
